@@ -94,7 +94,10 @@ def c02(tier, seed):
         + [dict(kind="hist15", pid="C02", n_histories=(40 if tier == "quick" else 400), only=["executor_rerun_used_partially_consumed_graph"],
                 **_seeds(seed + 65, k)) for k in range(2 if tier == "quick" else 8)]
         + diff_jobs("C02", tier, seed, dict(flags=0.2, nest=0.3, nest_flag=0.0, share_fns=0.3), 2, nj_scale=0.5,
-                    only=["call_site_received_wrong_values", "tawazi_returned_but_plain_python_raises"]),
+                    only=["call_site_received_wrong_values", "tawazi_returned_but_plain_python_raises", "value_only_to_be_passed_on_was_inspected"])
+        # the consumers inside a COMPOSED DAG receive the values given for the inputs they depend on (inputs listed in any order)
+        + [dict(kind="comp19", pid="C02", n_cases=(150 if tier == "quick" else 1500), only=["composed_value_differs_from_substituted_pipeline"],
+                **_seeds(seed + 67, k)) for k in range(2 if tier == "quick" else 6)],
         level="exploration", rule=RULE_SCHED + RULE_W3 + "; plus generated programs with nested DAGs (depth 2), operators, indexing and keyword "
         "arguments where every executed call site must receive exactly the reference's argument terms", assumptions=ASSUME_COMMON,
         required_reach=["c02_dep_edges", "c02_value_checks", "c10_dependent_arg_checks", "XENTER", "FENTER"], parallel=8 if tier == "quick" else 16,
@@ -225,6 +228,9 @@ def c14(tier, seed):
     jobs = w3_jobs(seed) + sched_jobs(tier, seed, gen=dict(nmax=8, mc_max=4), faults=True, dfs=True, dfs_faults=True, scale=0.7)
     # identification clause for every kind of node (operators incl. reflected ones, methods, and_/or_/not_, nested DAG nodes, ...)
     jobs += [dict(kind="c14_loc", n_cases=(120 if tier == "quick" else 1200), **_seeds(seed + 60, k)) for k in range(2 if tier == "quick" else 8)]
+    # "a call raises only because of a node failure or invalid arguments": valid calls, explicit setup() and repeated calls of DAGs
+    # with setup nodes (some return None), fault-free
+    jobs += sched_jobs(tier, seed + 41, gen=dict(nmin=3, nmax=8, mc_max=3, setup_rate=0.35), faults=False, dfs=False, stress=False, scale=0.25)
     return dict(
         jobs=jobs, level="fault_enumeration",
         rule=RULE_SCHED + RULE_W3 + "; fault plans = 1 or 2 call sites raising a marked exception (any resource; exceptions with one, several "
@@ -449,7 +455,11 @@ def c15(tier, seed):
         # a None for a setup node the execution did not select, never a value that makes a later execution skip or repeat one
         + [dict(kind="hist11", pid="C15", n_histories=(60 if tier == "quick" else 600),
                 only=["later_execution_does_not_see_first_setup_value", "setup_node_in_selection_did_not_run", "executed_set_differs_from_model"],
-                **_seeds(seed + 35, k)) for k in range(2 if tier == "quick" else 8)],
+                **_seeds(seed + 35, k)) for k in range(2 if tier == "quick" else 8)]
+        # "... never on executors created": a restart executor reads the cache file as it is NOW, not as an earlier executor of the
+        # process found it under the same path
+        + [dict(kind="cache18", pid="C15", n_cases=(120 if tier == "quick" else 1200), only=["restart_returns_values_of_an_older_cache_file_content"],
+                **_seeds(seed + 37, k)) for k in range(2 if tier == "quick" else 8)],
         level="exploration",
         rule="histories with setup nodes (calls, executors with selections, setup(targets), deep copies, reloads; both flavours): setup "
         "results are the only state that survives and it is always the first value; random histories (2..8 operations) over {call with full args, call omitting the defaulted argument, executor create+run, executor "
@@ -532,7 +542,12 @@ def c17(tier, seed):
         jobs=[dict(kind="async17", n_cases=nc, big=(tier != "quick"), op_watchdog_s=30, **_seeds(seed, k)) for k in range(nj)]
         # "records the same setup results as the DAG" also for setup results an execution found in the cache file it was started from
         + [dict(kind="cache18", pid="C17", n_cases=(250 if tier == "quick" else 1500), only=["setup_result_taken_from_the_cache_file_was_not_kept_by_the_instance"],
-                **_seeds(seed + 25, k)) for k in range(2 if tier == "quick" else 4)],
+                **_seeds(seed + 25, k)) for k in range(2 if tier == "quick" else 4)]
+        # "executes the same nodes and records the same setup results as the DAG": the setup histories (executor(selection).setup(),
+        # setup(selection), tags spelled like ids, ...) on AsyncDAGs only, against the model every DAG satisfies
+        + [dict(kind="hist11", pid="C17", flavour="async", n_histories=(200 if tier == "quick" else 800),
+                only=["executed_set_differs_from_model", "later_execution_does_not_see_first_setup_value", "ran_setup_node_the_selection_does_not_need",
+                      "setup_node_in_selection_did_not_run"], **_seeds(seed + 27, k)) for k in range(3 if tier == "quick" else 8)],
         level="exploration",
         rule="per case: (1) one generated program (2..8 call sites, all resources, flags, optional setup nodes) built as DAG and as AsyncDAG and "
         "run under the controller or free: value, multiset of entered call sites and recorded setup results must be equal (and equal to the "
